@@ -149,6 +149,7 @@ type retryParams struct {
 	Slow   int            `json:"slow,omitempty"`
 	Close  string         `json:"close,omitempty"`  // transport error style after a local Close
 	Linger int            `json:"linger,omitempty"` // transport Close returns late
+	Preset bool           `json:"preset,omitempty"` // the Dialer's clients carry a handler of their own
 	Client string         `json:"client,omitempty"` // "" = reconnect | retry | retry-retryfirst
 	Mode   string         `json:"mode"`             // single | pairs | random | steer | one
 	Part   int            `json:"part,omitempty"`
@@ -169,7 +170,7 @@ func (p retryParams) base() scen.Scenario {
 	if p.W == "echo" {
 		p.Cfg.Echo = true
 	}
-	return scen.Scenario{Client: cl, Cfg: p.Cfg, AlwaysResub: p.Always, Chunk: p.Chunk, LateWriteOK: p.Late, SlowReturn: p.Slow, CloseStyle: p.Close, CloseLinger: p.Linger, Pre: w.Pre, Steps: w.Steps, OnConnect: w.OnC, SlowActive: w.Slow, PingMs: w.PingMs, TimeoutMs: w.TimeoutMs}
+	return scen.Scenario{Client: cl, Cfg: p.Cfg, AlwaysResub: p.Always, Chunk: p.Chunk, LateWriteOK: p.Late, SlowReturn: p.Slow, CloseStyle: p.Close, CloseLinger: p.Linger, DialerPresetsHandler: p.Preset, Pre: w.Pre, Steps: w.Steps, OnConnect: w.OnC, SlowActive: w.Slow, PingMs: w.PingMs, TimeoutMs: w.TimeoutMs}
 }
 
 func cfgName(c scen.BrokerCfg, always bool, chunk int, late bool) string {
@@ -806,6 +807,7 @@ func fuzzScenario(rng *rand.Rand) scen.Scenario {
 	sc.Client = []string{"reconnect", "reconnect", "reconnect", "retry", "retry-retryfirst", "retry-chaotic"}[rng.Intn(6)]
 	sc.SlowActive = rng.Intn(8) == 0
 	sc.OnErrorPublishes = rng.Intn(6) == 0
+	sc.DialerPresetsHandler = rng.Intn(5) == 0
 	sc.CloseStyle = []string{"pipe", "net", ""}[rng.Intn(3)]
 	sc.CloseLinger = []int{0, 0, 0, 2}[rng.Intn(4)]
 	// fault plan
